@@ -1,4 +1,5 @@
 import SJ.Proofs.Tables
+import SJ.Proofs.F64Round
 import SJ.Proofs.Number
 /-
 C03 — Numbers get the documented type and the exact value.
@@ -48,5 +49,19 @@ theorem C03_rejects (s rest : List UInt8) (t : UInt8) (hstart : NumStart s) (ht 
 /-- non-vacuity: the three integer branches and a float are all taken -/
 example : parseNumber "9223372036854775807,".toUTF8.data 0 = some (mkWord tagInteger 0, 0x7fffffffffffffff) ∧
     parseNumber "9223372036854775808,".toUTF8.data 0 = some (mkWord tagUint 0, 0x8000000000000000) := by decide +kernel
+
+
+open SJ.F64Round SJ.F64 SJ.Numeric in
+/-- **"Correctly rounded" means what it says.** `F64.roundDecimal` — the function `Spec.numValue` uses to say which
+    float64 a literal with fraction/exponent (or an over-long integer) must be exposed as — returns the binary64
+    nearest to the exact value `± m · 10^e` among all finite binary64 values, and in a tie the one with even mantissa.
+    (Stated over `Rat`; `none` = the value rounds to infinity.) -/
+theorem C03_roundDecimal_is_nearest_even (neg : Bool) (m : Nat) (e : Int) (b : UInt64)
+    (h : F64.roundDecimal neg m e = some b) : IsNearestEven b (decValue neg m e) := roundDecimal_nearest neg m e b h
+
+open SJ.F64Round SJ.F64 in
+/-- exactly representable values are fixed points of the rounding -/
+theorem C03_round_exact (b : UInt64) (m : Nat) (e : Int) (h : F64.decode b = .fin false m e) (hm : m ≠ 0) :
+    F64.roundPos m e false = some b := roundPos_decode b m e h hm
 
 end SJ.Properties.C03
